@@ -134,6 +134,8 @@ def catalog(env, tier):
         # the generator's max_step (route-array length) deliberately differs from the env's time_limit: the limit must come from the constructor argument
         add("n12a2t7", lambda: E.MMST(generator=G.SplitRandomGenerator(num_nodes=12, num_edges=18, max_degree=5, num_agents=2, num_nodes_per_agent=3, max_step=30), time_limit=7), 10, time_limit=7, mk=lambda t: E.MMST(generator=G.SplitRandomGenerator(num_nodes=12, num_edges=18, max_degree=5, num_agents=2, num_nodes_per_agent=3, max_step=30), time_limit=t))
         add("n12a2t1", lambda: E.MMST(generator=G.SplitRandomGenerator(num_nodes=12, num_edges=18, max_degree=5, num_agents=2, num_nodes_per_agent=3, max_step=1), time_limit=1), 4, time_limit=1, mk=lambda t: E.MMST(generator=G.SplitRandomGenerator(num_nodes=12, num_edges=18, max_degree=5, num_agents=2, num_nodes_per_agent=3, max_step=1), time_limit=t))
+        # MORE agents than nodes per agent (per-agent buffers must be sized by the number of agents, not by nodes per agent)
+        add("n12a4p2-t9", lambda: E.MMST(generator=G.SplitRandomGenerator(num_nodes=12, num_edges=18, max_degree=5, num_agents=4, num_nodes_per_agent=2, max_step=9), time_limit=9), 12, time_limit=9, mk=lambda t: E.MMST(generator=G.SplitRandomGenerator(num_nodes=12, num_edges=18, max_degree=5, num_agents=4, num_nodes_per_agent=2, max_step=9), time_limit=t))
     elif env == "multi_cvrp":
         from jumanji.environments.routing.multi_cvrp import generator as G
         add("default", lambda: E.MultiCVRP(), 45)
